@@ -386,10 +386,11 @@ theorem removeTrack_props (s : Schema) {db : Db} (hs : SeqOk s db) (t : Id) :
 
 theorem trackIsValid_absent {db : Db} {t : Id} (h : ∀ r ∈ db.track, r.id ≠ t) : trackIsValid db t = .ok false := by
   unfold trackIsValid
-  have : db.track.filter (·.id == t) = [] := by
+  have : db.track.filter (fun r => r.id == t && r.hasPath) = [] := by
     apply List.filter_eq_nil_iff.mpr
     intro r hr he
-    exact h r hr (by simpa using he)
+    simp only [Bool.and_eq_true, beq_iff_eq] at he
+    exact h r hr he.1
   simp [this]
 
 /-! ### every operation -/
